@@ -193,17 +193,21 @@ _STACKERS = {"np.stack", "torch.stack", "numpy.stack"}
 def _ippo_masks(ck: Check, repo: Repo) -> None:
     fn = repo.fn("agilerl.algorithms.ippo", "IPPO.extract_action_masks")
     # (a) collection: for <agent>, <info> in infos.items(): <box>[self.get_homo_id(<agent>)].append(...)
-    loops = [n for n in walk_no_nested(fn.node) if isinstance(n, ast.For) and isinstance(n.iter, ast.Call) and ast.unparse(n.iter) == "infos.items()" and isinstance(n.target, ast.Tuple)]
+    # the collection loop visits the agents (in self.agent_ids order: C15.9) and reads each agent's own info entry
+    loops = [n for n in walk_no_nested(fn.node) if isinstance(n, ast.For) and (
+        (isinstance(n.iter, ast.Call) and ast.unparse(n.iter) == "infos.items()" and isinstance(n.target, ast.Tuple))
+        or (isinstance(n.target, ast.Name) and any(isinstance(x, (ast.Subscript, ast.Call)) and ast.unparse(x) in (f"infos[{n.target.id}]", f"infos.get({n.target.id})")
+                                                     for x in ast.walk(n))))]
     okc = False
     box = None
     for lp in loops:
-        agent = dotted(lp.target.elts[0])
+        agent = dotted(lp.target.elts[0]) if isinstance(lp.target, ast.Tuple) else lp.target.id
         hid = [a.targets[0].id for a in ast.walk(lp) if isinstance(a, ast.Assign) and isinstance(a.targets[0], ast.Name) and isinstance(a.value, ast.Call)
                and call_name(a.value) == "self.get_homo_id" and a.value.args and dotted(a.value.args[0]) == agent]
         for c in calls_in(lp, nested=True):
             if last_attr(c) == "append" and isinstance(c.func.value, ast.Subscript) and isinstance(c.func.value.value, ast.Name) and dotted(c.func.value.slice) in hid:
                 okc, box = True, c.func.value.value.id
-    ck.ob("C14.7", fn, loops[0] if loops else fn.node, okc, "IPPO.extract_action_masks: one mask per agent is appended to its policy group's list in the order of the info dict",
+    ck.ob("C14.7", fn, loops[0] if loops else fn.node, okc, "IPPO.extract_action_masks: one mask per agent, read from that agent's own info entry, is appended to its policy group's list",
           construct="IPPO.extract_action_masks: collection loop")
     # (b) combination: <box>[g] = <combiner>(<box>[g]) on the leading axis
     n = 0
